@@ -23,7 +23,8 @@ pub struct MultiSet {
 }
 
 /// Ratings by position: distinct, and deliberately not monotone in the insertion order.
-pub const RATINGS: [usize; 12] = [50, 90, 70, 10, 110, 30, 80, 20, 100, 60, 40, 120];
+/// positions 0 and 1 differ in the lowest bit only (2k against 2k + 1); the rest differ in higher bits too
+pub const RATINGS: [usize; 12] = [50, 51, 70, 10, 110, 30, 80, 20, 100, 60, 40, 120];
 
 pub fn store_at(set: &MultiSet, idx: u64) -> Vec<Rec> {
     seq_at(set.menu.len() as u64, set.lo, set.hi, idx)
